@@ -291,7 +291,7 @@ func c04Misconfig(c *Ctx, notFwd int64) {
 		for _, b := range f.Blocks {
 			for _, in := range b.Instrs {
 				bo, ok := in.(*ssa.BinOp)
-				if !ok || bo.Op != token.EQL || !types.Identical(bo.X.Type(), mis) {
+				if !ok || (bo.Op != token.EQL && bo.Op != token.NEQ) || !types.Identical(bo.X.Type(), mis) {
 					continue
 				}
 				if k, ok := bo.Y.(*ssa.Const); ok && k.Value != nil {
